@@ -224,6 +224,8 @@ def run(chk, replay=None):
 
 
 def judge_varinput(out):
+    if out.get("not_run"):
+        return []
     if out.get("hang"):
         return [("varinput:hang", "ExecVarInputText does not terminate")]
     if "panic" in out:
